@@ -137,6 +137,10 @@ class Intervals:
             if b is not None:
                 return Iv(b, b)
             r = ty_range(op.get("ty", ""))
+            if op.get("tyconst") and any(("; %s]" % op["tyconst"]) in (l_.get("ty") or "") for l_ in self.body.locals):
+                # a const generic parameter that is the length of an array type of this function: no array is longer than
+                # isize::MAX bytes
+                return Iv(0, LEN_MAX)
             return r if r is not None else Iv(-INF, INF)
         pl = flow.op_place(op)
         if pl is None:
